@@ -222,11 +222,11 @@ fn into_range(
 ) -> Range<usize> {
     let start = match range.start_bound() {
         Bound::Included(i) => *i,
-        Bound::Excluded(i) => *i + 1,
+        Bound::Excluded(i) => i.checked_add(1).expect("range start overflow"),
         Bound::Unbounded => 0,
     };
     let end = match range.end_bound() {
-        Bound::Included(i) => *i + 1,
+        Bound::Included(i) => i.checked_add(1).expect("range end overflow"),
         Bound::Excluded(i) => *i,
         Bound::Unbounded => len,
     };
